@@ -21,33 +21,24 @@ end Loc
 
 namespace Table
 
-/-- K12A excluded: no feature location is a `Joined` (so `Push` adds at most one list element
-per member and `indices[:len(locs)]` stays within `len(indices)`). -/
-def noTopJoin (t : Table) : Bool := t.all fun f => !f.loc.isJoined
-
-/-- K12C excluded: the grouping text `"%s:%v"` separates the (key, qualifiers) pairs of the
-table. -/
-def keysInj (t : Table) : Bool :=
-  t.all fun f => t.all fun g => classKey f != classKey g || (f.key == g.key && f.props == g.props)
-
 /-- number of features that share the grouping text of `f` -/
 def classSize (t : Table) (f : Feature) : Nat := (memberIdx t (classKey f)).length
 
-/-- K12A, K12B, K12D, K12E excluded: every feature is a forward contiguous range, or is alone
-in its class and not a `Joined`. -/
+/-- K12B, K12D, K12E, K12G excluded: every feature is a forward contiguous range, or is alone in
+its class. -/
 def plain (t : Table) : Bool :=
-  t.all fun f => f.loc.isRanged || (!f.loc.isJoined && classSize t f == 1)
+  t.all fun f => f.loc.isRanged || classSize t f == 1
 
 /-- K2 fires in the `Push` loop of some class -/
 def k2 (t : Table) : Bool :=
   (groups t).any fun idx => Loc.pushAllAbs (sortLocs (classLocs t idx)) (classForce t idx)
 
-/-- the general no-overflow guard: in every class the pushed list is non-empty and not longer
-than the class (no panic, no re-slicing into spare capacity, no `nil` location) -/
-def noStale (t : Table) : Bool :=
+/-- no `nil` Location is written: no class of two or more members has an empty pushed list
+(only possible with empty `Joined{}` literals) -/
+def noNil (t : Table) : Bool :=
   (groups t).all fun idx =>
     let p := pushedOf (classForce t idx) (classLocs t idx)
-    !p.isEmpty && decide (p.length ≤ idx.length)
+    !(decide (sliceLen p < idx.length) && p.isEmpty)
 
 end Table
 end Gts
